@@ -59,6 +59,32 @@ struct RawSent { uint32_t bytes; int32_t claimed; };
 static std::deque<RawSent> g_raw_sent;
 static qb_ipcc_connection_t *g_hostile_cc;
 
+// qb_ipcc_connect() without the client library's lower bound on the message size it asks for: the handshake carries
+// `small`, everything after it is libqb's own client code, so the peer is accepted and holds a working connection
+static qb_ipcc_connection_t *hostile_connect_small(const char *name, size_t small)
+{
+	struct qb_ipcc_connection *c = (struct qb_ipcc_connection *)calloc(1, sizeof *c);
+	struct qb_ipc_connection_response response;
+	if (!c) return NULL;
+	c->setup.max_msg_size = (uint32_t)small;
+	snprintf(c->name, NAME_MAX, "%s", name);
+	if (qb_ipcc_us_setup_connect(c, &response) < 0) { free(c); return NULL; }
+	qb_ipc_us_ready(&c->setup, NULL, -1, POLLIN);
+	if (qb_ipcc_setup_connect_continue(c, &response) != 0) { if (c->setup.u.us.sock >= 0) qb_ipcc_us_sock_close(c->setup.u.us.sock); free(c); return NULL; }
+	c->response.type = c->request.type = c->event.type = c->setup.type = (enum qb_ipc_type)response.connection_type;
+	c->response.max_msg_size = c->request.max_msg_size = c->event.max_msg_size = response.max_msg_size;
+	c->receive_buf = (struct qb_ipc_request_header *)calloc(1, 65536 + (size_t)response.max_msg_size);       // (the client's own buffer is not under test)
+	c->fc_enable_max = 1;
+	int32_t res = -EINVAL;
+	if (c->receive_buf) {
+		if (c->request.type == QB_IPC_SHM) res = qb_ipcc_shm_connect(c, &response);
+		else if (c->request.type == QB_IPC_SOCKET) res = qb_ipcc_us_connect(c, &response);
+	}
+	if (res != 0) { if (c->setup.u.us.sock >= 0) qb_ipcc_us_sock_close(c->setup.u.us.sock); free(c->receive_buf); free(c); return NULL; }
+	c->is_connected = QB_TRUE;
+	return c;
+}
+
 #define REQ_HDR ((int)sizeof(struct qb_ipc_request_header))
 #define RES_HDR ((int)sizeof(struct qb_ipc_response_header))
 #define DIR_MAGIC 0x51424456u
@@ -1138,7 +1164,10 @@ static void hostile_main(void *)
 		case K_H_RAW_REQUEST: {
 			// after a legitimate handshake, speak to the raw request channel with a lying header
 			if (!g_hostile_cc) {
-				g_hostile_cc = qb_ipcc_connect(G.svc_name.c_str(), (size_t)std::max<int64_t>(0, std::min<int64_t>(op.a[3], 100000)));
+				// (a[3] = -(n+1): ask for n bytes - a handshake no libqb client would send - qb_ipcc_connect() raises the size it asks for to
+				// that of the connection response - but any peer can)
+				if (op.a[3] < 0) g_hostile_cc = hostile_connect_small(G.svc_name.c_str(), (size_t)std::min<int64_t>(-op.a[3] - 1, 4096));
+				else g_hostile_cc = qb_ipcc_connect(G.svc_name.c_str(), (size_t)std::max<int64_t>(0, std::min<int64_t>(op.a[3], 100000)));
 				if (!g_hostile_cc) break;
 				count(p_hostile_conn);
 			}
@@ -1573,8 +1602,10 @@ static void gen(const char *prop, RunSpec &spec)
 				p.add(4, K_H_CLOSE);
 			} else {
 				int nr = (int)r.range(1, 8);
+				static const int64_t TINY[] = { 0, 1, 4, 8, 15, 16, 17, 24, 63 };
+				int64_t hmax = r.chance(1, 4) ? -(TINY[r.below(9)] + 1) : maxm;
 				for (int q = 0; q < nr; q++)
-					p.add(4, K_H_RAW_REQUEST, r.chance(1, 3) ? (int64_t)r.below(32) : r.chance(1, 2) ? (int64_t)r.range(16, 600) : eff - 8 + (int64_t)r.below(4200), r.below(4), r.below(12), maxm);
+					p.add(4, K_H_RAW_REQUEST, r.chance(1, 3) ? (int64_t)r.below(32) : r.chance(1, 2) ? (int64_t)r.range(16, 600) : eff - 8 + (int64_t)r.below(4200), r.below(4), r.below(12), hmax);
 				if (r.chance(1, 2)) p.add(4, K_H_CLOSE);
 			}
 		}
